@@ -324,9 +324,12 @@ def oracle_boundary(sh, kreq, pts, stats):
                 bad.append(('pt_bearing', f'{nm} point {j} {pt!r}: bearing {beta!r}, scheduled {b_sched % 360!r}'))
             # angular order: bearings decrease along the list (by the schedule step), checked circularly
             if prev_b is not None:
-                step = (prev_b - beta) % 360
+                step = (prev_b - beta + 180) % 360 - 180          # signed, circular
                 want_step = (schedule(sh, k, i + 1)[0] - b_sched) % 360
-                if want_step > 1e-9 and not (0 < step < 360 and abs(step - want_step) < 2 * tol_b + 1e-9):
+                # strict order is demanded only where the schedule step exceeds what 2 cm (and the 1e-7 deg
+                # rounding) can blur; below that consecutive points may coincide
+                if want_step > 1e-9 and want_step < 180 and not (abs(step - want_step) < 2 * tol_b + 1e-9
+                                                                 and (step > 0 or want_step <= 2 * tol_b)):
                     bad.append(('pts_angular_order', f'{nm} points {j - 1},{j}: bearing step {step!r}, schedule {want_step!r}'))
             prev_b = beta
         if not wedge and cdiff(arc[0][0], arc[-1][0]) * math.cos(math.radians(arc[0][1])) > 2e-7 or \
